@@ -49,6 +49,8 @@ type Elem struct {
 	N       int     `json:"n,omitempty"`     // words of a heading / paragraph / image alt text (image: 0 = no alt text)
 	Dot     int     `json:"dot,omitempty"`   // paragraph: every Dot-th word ends a sentence ("." appended); 0 = no punctuation
 	Colon   bool    `json:"colon,omitempty"` // paragraph ends with ':' (reads as a list introduction)
+	Sep     int     `json:"sep,omitempty"`   // paragraph word separator: 0 " ", 1 "\n" (multi-line), 2 "  ", 3 "\n\n" every 5th word (blank lines inside)
+	Pad     bool    `json:"pad,omitempty"`   // heading / paragraph text is surrounded by blanks
 	Items   []Item  `json:"items,omitempty"`
 	Ordered bool    `json:"ordered,omitempty"`
 	Rows    [][]int `json:"rows,omitempty"` // table: words per cell
@@ -150,10 +152,11 @@ type headingInfo struct {
 }
 
 type built struct {
-	doc      *model.Document
-	tokens   []token
-	index    map[string]int
-	headings []headingInfo
+	emptyPages []int // pages holding a paragraph or list without any word (layout form)
+	doc        *model.Document
+	tokens     []token
+	index      map[string]int
+	headings   []headingInfo
 }
 
 func (c Case) build() *built {
@@ -199,11 +202,18 @@ func (c Case) build() *built {
 					b.tokens[i].major, b.tokens[i].majorAf = beforeMajor, major
 				}
 				b.headings = append(b.headings, headingInfo{title: title, level: e.Level, page: p.Number, first: first, n: e.N})
-				page.AddElement(&model.Heading{Text: title, Level: e.Level})
+				text := title
+				if e.Pad {
+					text = "  " + title + " \t"
+				}
+				page.AddElement(&model.Heading{Text: text, Level: e.Level})
 				if page.Layout != nil {
-					page.Layout.Headings = append(page.Layout.Headings, model.HeadingInfo{Text: title, Level: e.Level})
+					page.Layout.Headings = append(page.Layout.Headings, model.HeadingInfo{Text: text, Level: e.Level})
 				}
 			case "p":
+				if e.N == 0 {
+					b.emptyPages = append(b.emptyPages, p.Number)
+				}
 				ws := words('p', e.N, p.Number, -1)
 				if e.Dot > 0 {
 					for i := range ws {
@@ -212,17 +222,39 @@ func (c Case) build() *built {
 						}
 					}
 				}
-				text := strings.Join(ws, " ")
-				if e.Colon {
+				var tb strings.Builder
+				for i, w := range ws {
+					if i > 0 {
+						switch {
+						case e.Sep == 1:
+							tb.WriteString("\n")
+						case e.Sep == 2:
+							tb.WriteString("  ")
+						case e.Sep == 3 && i%5 == 0:
+							tb.WriteString("\n\n")
+						default:
+							tb.WriteString(" ")
+						}
+					}
+					tb.WriteString(w)
+				}
+				text := tb.String()
+				if e.Colon && len(ws) > 0 {
 					text += ":"
-				} else if e.Dot > 0 {
+				} else if e.Dot > 0 && len(ws) > 0 {
 					text += "."
+				}
+				if e.Pad {
+					text = " \n" + text + "  "
 				}
 				page.AddElement(&model.Paragraph{Text: text})
 				if page.Layout != nil {
 					page.Layout.Paragraphs = append(page.Layout.Paragraphs, model.ParagraphInfo{Text: text})
 				}
 			case "l":
+				if len(e.Items) == 0 {
+					b.emptyPages = append(b.emptyPages, p.Number)
+				}
 				var items []model.ListItem
 				for _, it := range e.Items {
 					items = append(items, model.ListItem{Text: strings.Join(words('l', it.N, p.Number, -1), " "), Level: it.Level, Bullet: "-"})
@@ -482,6 +514,11 @@ func checkCase(c Case) error {
 					addPage(i, h.page)
 				}
 			}
+			// an element without words (empty paragraph, list without items) leaves no trace in the text,
+			// but a section chunk may contain it: its page is allowed, not required
+			for _, p := range b.emptyPages {
+				addPage(i, p)
+			}
 		}
 		if !(minPage[i] <= ch.meta.PageStart && ch.meta.PageStart <= ch.meta.PageEnd && ch.meta.PageEnd <= maxPage[i]) {
 			return fmt.Errorf("chunk %d reports pages %d-%d, its content comes from pages %d-%d (first word %s)", i, ch.meta.PageStart, ch.meta.PageEnd, minPage[i], maxPage[i], b.describe(firstTok[i]))
@@ -531,12 +568,17 @@ func genPara(t *rapid.T, maxWords int) Elem {
 		e.Dot = rapid.IntRange(1, 12).Draw(t, "dot")
 	}
 	e.Colon = rapid.IntRange(0, 4).Draw(t, "colon") == 0
+	e.Sep = rapid.SampledFrom([]int{0, 0, 0, 1, 2, 3}).Draw(t, "sep")
+	e.Pad = rapid.IntRange(0, 5).Draw(t, "pad") == 0
+	if rapid.IntRange(0, 19).Draw(t, "emptyPara") == 0 {
+		e.N = 0 // a paragraph without text
+	}
 	return e
 }
 
 func genList(t *rapid.T) Elem {
 	e := Elem{Kind: "l", Ordered: rapid.Bool().Draw(t, "ordered")}
-	n := rapid.IntRange(1, 6).Draw(t, "items")
+	n := rapid.SampledFrom([]int{0, 1, 1, 2, 2, 3, 4, 5, 6}).Draw(t, "items")
 	level := 0
 	for i := 0; i < n; i++ {
 		// nesting: stay, go one deeper, or return to any shallower level
@@ -558,14 +600,19 @@ func genList(t *rapid.T) Elem {
 }
 
 func genHeading(t *rapid.T) Elem {
-	return Elem{Kind: "h", Level: rapid.IntRange(1, 6).Draw(t, "level"), N: rapid.IntRange(1, 3).Draw(t, "headingWords")}
+	return Elem{Kind: "h", Level: rapid.IntRange(1, 6).Draw(t, "level"), N: rapid.IntRange(1, 3).Draw(t, "headingWords"),
+		Pad: rapid.IntRange(0, 5).Draw(t, "pad") == 0}
 }
 
 func genTable(t *rapid.T) Elem {
 	rows := rapid.IntRange(0, 3).Draw(t, "rows")
 	cols := rapid.IntRange(1, 3).Draw(t, "cols")
 	e := Elem{Kind: "t"}
+	ragged := rapid.IntRange(0, 3).Draw(t, "ragged") == 0
 	for r := 0; r < rows; r++ {
+		if ragged {
+			cols = rapid.IntRange(0, 3).Draw(t, "rowCols")
+		}
 		row := make([]int, cols)
 		for j := range row {
 			row[j] = rapid.IntRange(0, 3).Draw(t, "cellWords")
